@@ -60,6 +60,16 @@ text once, and a finished operation holds the index of ITS text -/
 def Good (key : Nat → Nat) (s : St) : Prop :=
   s.table.Nodup ∧ ∀ t i, s.pc t = .done i → s.table[i]? = some (key t)
 
+/-! ## checker for observations made on the REAL interner (hook `verif_hooks::c12::intern`) -/
+
+/-- observations `(text, identifier)`: equal texts ↔ equal identifiers -/
+def consistent (obs : List (Nat × Nat)) : Bool :=
+  obs.all (fun p => obs.all (fun q => decide (p.1 = q.1) == decide (p.2 = q.2)))
+
+/-- what a state of the machine hands out: `(key t, i)` for every finished thread of `ts` -/
+def observations (key : Nat → Nat) (s : St) (ts : List Nat) : List (Nat × Nat) :=
+  ts.filterMap (fun t => match s.pc t with | .done i => some (key t, i) | _ => none)
+
 /-! ## (2) per-type cache of a per-runtime fact -/
 
 /-- `declare rt ty name`: runtime `rt` registers Rust type `ty` under `name`;
